@@ -336,12 +336,24 @@ impl Ids {
             }
             let id = match &f.import {
                 Some((m, n)) => format!("F:imp:{}.{}", m, n),
-                None => match (f.ops.first(), f.ops.get(1)) {
-                    (Some(a), Some(b)) if a.starts_with("I64Const") && b == "Drop" => {
-                        format!("F:uid:{}", a.trim_start_matches("I64Const { value: ").trim_end_matches(" }"))
+                None => {
+                    // the marker is the first `i64.const <uid>; drop` with a uid from the marker
+                    // ranges; function-entry probes may place code in front of it
+                    let mut found = None;
+                    for (i, op) in f.ops.iter().enumerate().take(64) {
+                        if let Some(v) = op.strip_prefix("I64Const { value: ").and_then(|r| r.strip_suffix(" }")).and_then(|r| r.parse::<i64>().ok()) {
+                            let is_marker = (0x5EED_0000..0x5EEE_0000).contains(&v) || (0x7EED_0000..0x7EEE_0000).contains(&v);
+                            if is_marker && f.ops.get(i + 1).map(|x| x == "Drop").unwrap_or(false) {
+                                found = Some(v);
+                                break;
+                            }
+                        }
                     }
-                    _ => format!("F:anon@{}", k),
-                },
+                    match found {
+                        Some(v) => format!("F:uid:{}", v),
+                        None => format!("F:anon@{}", k),
+                    }
+                }
             };
             ids.f.push(id);
         }
